@@ -274,13 +274,12 @@ S(id="RG.prefix", props=["C10", "C14", "C15"], spec="rg.spec.c", harness="h_rg_p
        "when new by name and code, exactly as delivered; on normal end no defect was delivered",
   assumes=["A7: symb_find_by_repr / symb_find_by_code answer 'found' iff the name / code was added before (C19 HT.* + symb_add_term, composed on paper)",
            "R5: the region is cut from yaep_read_grammar on every run; the rest of the function (rule intake, checks) is not covered by this set"])
-TF = dict(TREE_B, unwind_all=11, rec_unwind=4, timeout=1500, functions=["yaep_free_tree", "free_tree_reduce", "free_tree_sweep"])
-S(id="T.free.flat", props=["C13"], harness="h_free_tree_flat", bound="one abstract node with <= 3 children drawn from 2 TERM and 1 NIL node, any sharing; names of 1..2 characters",
-  what="every block reachable from the root goes to parse_free exactly once and nothing else does; termcb is called exactly once per TERM node", **TF)
-S(id="T.free.alt", props=["C13"], harness="h_free_tree_alt", bound="ALT root over two abstract nodes that share one name block, one child each from 2 TERM and 1 NIL node",
-  what="as T.free.flat, for alternatives and a name block shared by two nodes", **TF)
-S(id="T.free.nest", props=["C13"], harness="h_free_tree_nest", bound="abstract node nested as first child of an abstract node; children from 2 TERM and 1 NIL node",
-  what="as T.free.flat, for nesting", **TF)
+S(id="T.free.native", props=["C13"], spec="native/free_tree_enum.c", mode="N", link=["allocate.c", "hashtab.c", "objstack.c", "vlobject.c", "yaep.c"], harness="main",
+  params={"quick": {"MAXKIDS": 2}, "thorough": {"MAXKIDS": 3}}, timeout=1500,
+  bound="all DAGs with 2 TERM, 1 NIL, 1 ERROR leaf and <= 3 layered abstract nodes of <= 2 (thorough 3) children, name sharing, ALT root over the top two (114 597 shapes at the quick bound)",
+  functions=["yaep_free_tree", "free_tree_reduce", "free_tree_sweep"],
+  what="every block reachable from the root goes to parse_free exactly once, nothing else does (never NULL), termcb once per TERM. "
+       "(The CBMC versions of this set - three bounded plain harnesses - did not finish in 25 minutes each and were dropped.)")
 
 # ---------------- C12: terminal sets ----------------
 for nm, fn, lp in [("up", "term_set_up", 0), ("test", "term_set_test", 0), ("clear", "term_set_clear", 1), ("copy", "term_set_copy", 1), ("or", "term_set_or", 1)]:
@@ -299,7 +298,7 @@ S(id="G.ctx", props=["C14", "C12"], spec="parse.spec.c", harness="h_build_start_
 
 # sets still being brought up: not part of any tier until they are green on the unchanged tree (run with --sets <id>)
 for _s in SETS:
-    if _s["id"] in ("TOK.vec", "T.free.flat", "T.free.alt", "T.free.nest"):
+    if _s["id"] in ("TOK.vec",):
         _s["disabled"] = "work in progress"
 S(id="T.anode_reset", props=["C13", "C14"], spec="parse.spec.c", harness="h_parse_init", mode="B", dfcc=True,
   replace=["sit_init/sit_init_c", "set_init/set_init_c", "core_symb_vect_init/core_symb_vect_init_c"], unwind_all=5,
@@ -339,7 +338,7 @@ DEMOS = {"API.parse": ["F1"], "API.parse.unwind": ["F1", "F25"], "S.flags": ["F2
 # + demonstration programs written by the independent sub-agents for their seeded changes (API-level, public headers only)
 for k, v in {"RG.prefix": ["S_C15_m1"], "G.free": ["S_C14_m2"], "G.create": ["S_C17_m1"], "TOK.find": ["S_C12_m2"], "UB.lex": ["S_C11_m1"], "UB.msg.arg": ["S_C12_m1"],
              "OS.top.add_byte": ["S_C19_m2"], "HT.remove": ["S_C19_m1"], "A.wrap.realloc": ["S_C17_m2"], "D.front": ["S_C17_m3"], "P.step.base": ["S_C04_m1"],
-             "T.size.copy": ["S_C04_m2"], "S.oneparse": ["S_C14_m1"], "T.anode_reset": ["S_C13_m1"], "T.free.flat": ["S_C13_m2"], "VLO.grow": ["S_C19_m3"]}.items():
+             "T.size.copy": ["S_C04_m2"], "S.oneparse": ["S_C14_m1"], "T.anode_reset": ["S_C13_m1"], "T.free.native": ["S_C13_m2", "F26"], "VLO.grow": ["S_C19_m3"]}.items():
     DEMOS[k] = DEMOS.get(k, []) + v
 for _s in SETS:
     if _s["id"] in DEMOS:
